@@ -173,6 +173,60 @@ theorem id_injective_same_source_partial (b₁ b₂ : Bundle) (hs : b₁.primary
     have h3 := append_dash_cancel _ _ _ _ (decStr_no_dash _) (decStr_no_dash _) h2
     simp [hs, hts, decStr_injective _ _ h3.1, decStr_injective _ _ h3.2]
 
+/-- **C13 (injectivity wherever the separator is unambiguous).** The exact extent of K1: among
+    bundles whose source endpoint IDs, as printed, contain no `-`, equal IDs force equal identity
+    fields (source, creation time, sequence number, being a fragment, fragment offset) — whatever
+    the two sources are.  Every collision of the ID scheme therefore involves a `-` inside a source
+    string. -/
+theorem id_injective_dashless_sources (b₁ b₂ : Bundle)
+    (hd₁ : DASH ∉ printEid b₁.primary.src) (hd₂ : DASH ∉ printEid b₂.primary.src)
+    (h : b₁.id = b₂.id) : Identity b₁ = Identity b₂ := by
+  unfold Bundle.id at h
+  simp only [List.append_assoc, List.cons_append, List.nil_append] at h
+  have h0 := append_dash_cancel _ _ _ _ hd₁ hd₂ h
+  have hsrc := h0.1
+  have h1 := append_dash_cancel _ _ _ _ (decStr_no_dash b₁.primary.ts) (decStr_no_dash b₂.primary.ts) h0.2
+  have hts := decStr_injective _ _ h1.1
+  have h2 := h1.2
+  unfold Identity
+  cases f1 : b₁.primary.isFragment <;> cases f2 : b₂.primary.isFragment
+  · simp only [f1, f2, Bool.false_eq_true, if_false, List.append_nil] at h2 ⊢
+    simp [hsrc, hts, decStr_injective _ _ h2]
+  · simp only [f1, f2, Bool.false_eq_true, if_true, if_false, List.append_nil] at h2
+    exact absurd h2 (fun e => append_nil_dash _ _ _ (decStr_no_dash _) (decStr_no_dash _) e)
+  · simp only [f1, f2, Bool.false_eq_true, if_true, if_false, List.append_nil] at h2
+    exact absurd h2.symm (fun e => append_nil_dash _ _ _ (decStr_no_dash _) (decStr_no_dash _) e)
+  · simp only [f1, f2, if_true] at h2 ⊢
+    have h3 := append_dash_cancel _ _ _ _ (decStr_no_dash _) (decStr_no_dash _) h2
+    simp [hsrc, hts, decStr_injective _ _ h3.1, decStr_injective _ _ h3.2]
+
+/-- ipn endpoint IDs and `dtn:none` print without a `-` -/
+theorem printEid_ipn_no_dash (c n sv : Nat) : DASH ∉ printEid (.ipn c n sv) := by
+  intro h
+  simp only [printEid, List.mem_append, List.mem_singleton] at h
+  rcases h with ((h | h) | h) | h
+  · revert h; decide
+  · exact decStr_no_dash _ h
+  · simp [DASH] at h
+  · exact decStr_no_dash _ h
+
+theorem printEid_null_no_dash (c v : Nat) : DASH ∉ printEid (.null c v) := by
+  simp only [printEid]; decide
+
+/-- **C13 (ipn and anonymous sources).** Bundle IDs are injective over all bundles whose sources
+    are ipn endpoint IDs or `dtn:none`: K1 cannot occur there. -/
+theorem id_injective_ipn_sources (b₁ b₂ : Bundle)
+    (hs₁ : (∃ c n s, b₁.primary.src = .ipn c n s) ∨ ∃ c v, b₁.primary.src = .null c v)
+    (hs₂ : (∃ c n s, b₂.primary.src = .ipn c n s) ∨ ∃ c v, b₂.primary.src = .null c v)
+    (h : b₁.id = b₂.id) : Identity b₁ = Identity b₂ := by
+  apply id_injective_dashless_sources b₁ b₂ _ _ h
+  · rcases hs₁ with ⟨c, n, s, e⟩ | ⟨c, v, e⟩ <;> rw [e]
+    · exact printEid_ipn_no_dash c n s
+    · exact printEid_null_no_dash c v
+  · rcases hs₂ with ⟨c, n, s, e⟩ | ⟨c, v, e⟩ <;> rw [e]
+    · exact printEid_ipn_no_dash c n s
+    · exact printEid_null_no_dash c v
+
 /-- **C13 (status reports).** The bundle reference printed by a status report about a
     non-fragment bundle equals that bundle's ID. -/
 theorem refbundle_eq_id (b : Bundle) (pos reason now : Nat) (hf : b.primary.isFragment = false) :
